@@ -1298,7 +1298,7 @@ PyObject * matrix_elem_max(PyObject *self, PyObject *args, PyObject *kwrds)
   if ((a_is_number && b_is_number) &&
       (!X_Matrix_Check(A) && !X_Matrix_Check(B))) {
     if (id == INT)
-      return Py_BuildValue("i", MAX(a.i, b.i) );
+      return Py_BuildValue("n", MAX(a.i, b.i) );
     else
       return Py_BuildValue("d", MAX(a.d, b.d) );
   }
@@ -1481,7 +1481,7 @@ PyObject * matrix_elem_min(PyObject *self, PyObject *args, PyObject *kwrds)
   if ((a_is_number && b_is_number) &&
       (!X_Matrix_Check(A) && !X_Matrix_Check(B))) {
     if (id == INT)
-      return Py_BuildValue("i", MIN(a.i, b.i) );
+      return Py_BuildValue("n", MIN(a.i, b.i) );
     else
       return Py_BuildValue("d", MIN(a.d, b.d) );
   }
@@ -1658,7 +1658,7 @@ PyObject * matrix_elem_mul(matrix *self, PyObject *args, PyObject *kwrds)
       (!X_Matrix_Check(A) && !X_Matrix_Check(B))) {
     if (!X_Matrix_Check(A) && !X_Matrix_Check(B)) {
       if (id == INT)
-        return Py_BuildValue("i", a.i*b.i );
+        return Py_BuildValue("n", a.i*b.i );
       else if (id == DOUBLE)
         return Py_BuildValue("d", a.d*b.d );
       else {
@@ -1877,7 +1877,7 @@ PyObject * matrix_elem_div(matrix *self, PyObject *args, PyObject *kwrds)
       (!X_Matrix_Check(A) && !Matrix_Check(B))) {
     if (id == INT) {
       if (b.i == 0) PY_ERR(PyExc_ArithmeticError, "division by zero");
-      return Py_BuildValue("i", a.i/b.i );
+      return Py_BuildValue("n", a.i/b.i );
     }
     else if (id == DOUBLE) {
       if (b.d == 0.0) PY_ERR(PyExc_ArithmeticError, "division by zero");
